@@ -23,6 +23,25 @@ type c03Case struct {
 	Prog   pgen.Prog         `json:"prog"`
 	Blocks []world.ForkBlock `json:"blocks"` // arrival order; the first is the initial LIB (block 0)
 	Output string            `json:"output"`
+	// Prefix > 0: the fork history sits on top of Prefix final blocks (block Prefix is the initial LIB "b0"), the
+	// request starts at Start inside or right after them with segments of Seg blocks, so that the stores the
+	// forks work on were back-filled by segment jobs and handed over
+	Prefix uint64 `json:"prefix,omitempty"`
+	Seg    uint64 `json:"seg,omitempty"`
+	Start  uint64 `json:"start,omitempty"`
+}
+
+// prefixSteps are the final blocks 0..n-1 below the fork history.
+func prefixSteps(n uint64) []world.Step {
+	var out []world.Step
+	for i := uint64(0); i < n; i++ {
+		st := world.Step{Num: i, ID: fmt.Sprintf("p%d", i), Step: bstream.StepNewIrreversible, LIBNum: i, LIBID: fmt.Sprintf("p%d", i)}
+		if i > 0 {
+			st.Parent = fmt.Sprintf("p%d", i-1)
+		}
+		out = append(out, st)
+	}
+	return out
 }
 
 // genForkBlocks draws 2..4 branches over a few heights and a random arrival order (parents first).
@@ -166,6 +185,7 @@ type c03Stats struct {
 	undos, flipflop, stalled int
 	undoOfDeleteOrResize     bool
 	maxDepth                 int
+	backfillJobs             int
 }
 
 // chainKey identifies a canonical chain prefix.
@@ -178,24 +198,27 @@ type c03Ref struct {
 }
 
 // runChainReference executes the fork-free chain (blocks given by id/num/parent) and records the stores after every block.
-func runChainReference(p pgen.Prog, output string, chain []world.Step, ref *c03Ref) error {
+func runChainReference(p pgen.Prog, output string, chain []world.Step, ref *c03Ref, start, prefix uint64) error {
 	dir := newDir()
 	defer os.RemoveAll(dir)
 	var ids []string
 	cfg := world.Config{Dir: dir, Seg: 1_000_000, Workers: 1, Final: 0, Steps: chain}
 	cfg.OnBlock = func(st world.Step, m store.Map) {
+		if st.Num <= prefix && prefix > 0 {
+			return
+		}
 		ids = append(ids, st.ID)
 		if m != nil {
 			ref.stores[chainKey(ids)] = snapStores(st.Num, m)
 		}
 	}
-	res := world.Run(p.Modules(), world.Request{Prod: false, Start: 1, Stop: 0, Output: output}, cfg)
+	res := world.Run(p.Modules(), world.Request{Prod: false, Start: int64(start), Stop: 0, Output: output}, cfg)
 	if res.Err != nil {
 		return res.Err
 	}
 	var all []string
 	for _, st := range chain {
-		if st.Num >= 1 {
+		if st.Num >= prefix+1 {
 			all = append(all, st.ID)
 		}
 	}
@@ -205,14 +228,29 @@ func runChainReference(p pgen.Prog, output string, chain []world.Step, ref *c03R
 
 func checkC03(c c03Case) (*ev.Failure, c03Stats) {
 	var st c03Stats
-	steps, err := world.ForkSteps(c.Blocks)
+	P, start, seg := c.Prefix, uint64(1), uint64(1_000_000)
+	blocks := c.Blocks
+	if P > 0 {
+		start, seg = c.Start, c.Seg
+		blocks = nil
+		for i, b := range c.Blocks {
+			b.Num += P
+			b.LibNum += P
+			if i == 0 {
+				b.Parent = fmt.Sprintf("p%d", P-1)
+			}
+			blocks = append(blocks, b)
+		}
+	}
+	steps, err := world.ForkSteps(blocks)
 	if err != nil {
 		ev.Get("C03", "Forks").Discard("fork-resolver-rejected-history")
 		return nil, st
 	}
+	steps = append(prefixSteps(P), steps...)
 	kinds := c.Prog.StoreKinds()
 	byID := map[string]world.ForkBlock{}
-	for _, b := range c.Blocks {
+	for _, b := range blocks {
 		byID[b.ID] = b
 	}
 	ref := &c03Ref{stores: map[string]*storeSnap{}, byKey: map[string][]*world.Data{}}
@@ -220,12 +258,15 @@ func checkC03(c c03Case) (*ev.Failure, c03Stats) {
 		if _, ok := ref.stores[chainKey(ids)]; ok || len(ids) == 0 {
 			return nil
 		}
-		chain := []world.Step{{Num: 0, ID: "b0", Step: bstream.StepNewIrreversible, LIBNum: 0, LIBID: "b0"}}
+		chain := append(prefixSteps(P), world.Step{Num: P, ID: "b0", Step: bstream.StepNewIrreversible, LIBNum: P, LIBID: "b0"})
+		if P > 0 {
+			chain[P].Parent = fmt.Sprintf("p%d", P-1)
+		}
 		for _, id := range ids {
 			b := byID[id]
 			chain = append(chain, world.Step{Num: b.Num, ID: b.ID, Parent: b.Parent, Step: bstream.StepNewIrreversible, LIBNum: b.Num, LIBID: b.ID})
 		}
-		return runChainReference(c.Prog, c.Output, chain, ref)
+		return runChainReference(c.Prog, c.Output, chain, ref, start, P)
 	}
 
 	seenNew := map[string]int{}
@@ -251,9 +292,13 @@ func checkC03(c c03Case) (*ev.Failure, c03Stats) {
 		dir := newDir()
 		var canonical []string // ids of the blocks >= 1 of the current chain
 		var failure *ev.Failure
-		cfg := world.Config{Dir: dir, Seg: 1_000_000, Workers: 1, Final: 1, Steps: steps}
+		final := uint64(1)
+		if P > 0 {
+			final = P
+		}
+		cfg := world.Config{Dir: dir, Seg: seg, Workers: 2, Final: final, Steps: steps}
 		cfg.OnBlock = func(s world.Step, m store.Map) {
-			if failure != nil || s.Num < 1 {
+			if failure != nil || s.Num < P+1 {
 				return
 			}
 			switch {
@@ -300,7 +345,7 @@ func checkC03(c c03Case) (*ev.Failure, c03Stats) {
 				}
 			}
 		}
-		res := world.Run(c.Prog.Modules(), world.Request{Prod: prod, Start: 1, Stop: 0, Output: c.Output}, cfg)
+		res := world.Run(c.Prog.Modules(), world.Request{Prod: prod, Start: int64(start), Stop: 0, Output: c.Output}, cfg)
 		os.RemoveAll(dir)
 		if failure != nil {
 			return failure, st
@@ -308,9 +353,16 @@ func checkC03(c c03Case) (*ev.Failure, c03Stats) {
 		if res.Err != nil {
 			return ev.Failf("run-error", "%s request over the fork history failed: %v", mode, res.Err), st
 		}
-		if res.Session != nil && res.Session.LinearHandoffBlock != 1 {
+		if P == 0 && res.Session != nil && res.Session.LinearHandoffBlock != 1 {
 			ev.Get("C03", "Forks").Discard("handoff-not-at-start")
 			return nil, st
+		}
+		if P > 0 && res.Session != nil && res.Session.LinearHandoffBlock > P {
+			ev.Get("C03", "Forks").Discard("handoff-above-the-final-prefix")
+			return nil, st
+		}
+		if P > 0 {
+			st.backfillJobs += len(res.Jobs)
 		}
 
 		// the client: keeps data messages, drops what is above last_valid_block on an undo signal
@@ -331,6 +383,9 @@ func checkC03(c c03Case) (*ev.Failure, c03Stats) {
 				if !ok && len(held) == 0 {
 					ok = true
 				}
+				if !ok && P > 0 && lv.Number <= P {
+					ok = true // a block of the final prefix, which this client does not track
+				}
 				if !ok {
 					return ev.Failf("client/undo-designates-unknown-block", "%s: undo signal designates block %d/%s which the client does not hold (holds %v)", mode, lv.Number, lv.Id, nums(held)), st
 				}
@@ -350,6 +405,9 @@ func checkC03(c c03Case) (*ev.Failure, c03Stats) {
 				continue
 			}
 			d := m.Data
+			if d.Num <= P && P > 0 {
+				continue // the final blocks below the fork history: judged by C01/C04, not here
+			}
 			if undoSinceHeight[d.Num] {
 				return ev.Failf("client/two-blocks-one-height", "%s: a second block at height %d (%s) was delivered without an undo in between", mode, d.Num, d.ID), st
 			}
@@ -371,6 +429,15 @@ func checkC03(c c03Case) (*ev.Failure, c03Stats) {
 				return ev.Failf("reference-error", "%v", err), st
 			}
 			want = ref.byKey[chainKey(canonical)]
+		}
+		if P > 0 {
+			var w2 []*world.Data
+			for _, d := range want {
+				if d.Num > P {
+					w2 = append(w2, d)
+				}
+			}
+			want = w2
 		}
 		if len(held) != len(want) {
 			return ev.Failf("client/diverged", "%s: the client ends with blocks %v, the canonical chain %v has outputs for %v", mode, ids(held), canonical, ids(want)), st
@@ -439,6 +506,30 @@ func TestC03Forks(t *testing.T) {
 		r.Case(c, st.undoOfDeleteOrResize, cl...)
 		r.Report(rt, c, f)
 	})
+}
+
+// TestC03ForksBackfill: the same fork histories on top of a final prefix that is back-filled by segment jobs.
+func TestC03ForksBackfill(t *testing.T) {
+	r := ev.Get("C03", "ForksBackfill")
+	r.Rule = "as Forks, but the fork history sits on top of 4..14 final blocks, modules start at block 1, segments of 2..4 blocks, the request starts inside or right after the final prefix and the recent final block is the top of the prefix: the stores the forks work on were built by segment jobs and handed over (or, in development mode, rebuilt from the boundary below the start); same oracles on the fork region; non-trivial = at least one segment job ran and the history undoes a block whose deltas include a delete or a size-changing update"
+	rapid.Check(t, func(rt *rapid.T) {
+		c := genC03(rt)
+		c.Seg = rapid.Uint64Range(2, 4).Draw(rt, "seg")
+		c.Prefix = rapid.Uint64Range(2*c.Seg, 3*c.Seg+2).Draw(rt, "prefix")
+		c.Start = rapid.Uint64Range(1, c.Prefix+1).Draw(rt, "start")
+		r.Begin(c)
+		f, st := checkC03(c)
+		cl := []string{fmt.Sprintf("undos<=%d", bucketInt(st.undos)), fmt.Sprintf("backfill-jobs<=%d", bucketInt(st.backfillJobs))}
+		if st.flipflop > 0 {
+			cl = append(cl, "flip-flop(block re-applied)")
+		}
+		r.Case(c, st.undoOfDeleteOrResize && st.backfillJobs > 0, cl...)
+		r.Report(rt, c, f)
+	})
+}
+
+func TestC03ForksBackfillReplay(t *testing.T) {
+	ev.Replay(t, "C03", "ForksBackfill", func(c c03Case) *ev.Failure { f, _ := checkC03(c); return f })
 }
 
 func TestC03ForksReplay(t *testing.T) {
